@@ -865,6 +865,122 @@ fn prepare(case: &str) -> Option<Prepared> {
     Some(Prepared { depth, notes, texts, root, feats, pat })
 }
 
+/// directory layouts for the flat keys of the mini-syntax (keys not listed stay where they are)
+const LAYOUTS: &[(&str, &[(&str, &str)])] = &[
+    ("A", &[("1", "1"), ("2", "d/2"), ("3", "d/3"), ("4", "e/4")]),
+    ("B", &[("1", "d/1"), ("2", "2"), ("3", "d/e/3"), ("4", "d/4")]),
+    ("C", &[("1", "d/1"), ("2", "d/2"), ("3", "e/3"), ("4", "d/4")]),
+];
+
+fn real_squash(texts: &HashMap<String, String>, root: &str, depth: u8) -> Option<Result<String, PanicInfo>> {
+    let texts = texts.clone();
+    let root = root.to_string();
+    with_horizon(HORIZON_INPROC_S, move || {
+        let graph = Graph::import(&texts, opts(""));
+        let g: &Graph = &graph;
+        let key = Key::from_file_name(&root);
+        let squashed = g.squash(&key, depth);
+        let mut patch = Graph::new();
+        patch.build_key_from_iter(&key, TreeIter::new(&squashed));
+        patch.export_key(&key).unwrap()
+    })
+}
+
+/// `dirs:<layout>|d=<depth>|<flat library>`: the same library with its notes moved into
+/// directories (every reference url re-written relative to the directory of the note that holds
+/// it) must squash to the same tree, link for link: a destination of the flat result, renamed by
+/// the layout, is the note that the corresponding destination of the moved result names from the
+/// root note's directory. A differential oracle: no expected value of its own.
+fn run_dirs(rest: &str) -> CaseResult {
+    let Some((layout, flat_case)) = rest.split_once('|') else {
+        return CaseResult { outcome: "unparsable-case".into(), ..Default::default() };
+    };
+    let Some((depth, notes)) = parse_case(flat_case) else {
+        return CaseResult { outcome: "unparsable-case".into(), ..Default::default() };
+    };
+    let map: &[(&str, &str)] = LAYOUTS.iter().find(|l| l.0 == layout).map(|l| l.1).unwrap_or(&[]);
+    let rho = |k: &str| -> String { map.iter().find(|m| m.0 == k).map(|m| m.1.to_string()).unwrap_or(k.to_string()) };
+    let flat = lib_texts(&notes);
+    let root = notes[0].0.clone();
+    // every key that occurs as a destination (defined or not)
+    let mut dests: BTreeSet<String> = flat.keys().cloned().collect();
+    for t in flat.values() {
+        for l in oracle::scan_links(t) {
+            if !oracle::is_external(&l.dest) {
+                dests.insert(l.dest.clone());
+            }
+        }
+    }
+    let mut moved: HashMap<String, String> = HashMap::new();
+    for (k, t) in &flat {
+        let nk = rho(k);
+        let dir = oracle::dir_of(&nk);
+        let mut nt = t.clone();
+        // two passes through a placeholder so that a new url is never re-written again
+        for (i, d) in dests.iter().enumerate() {
+            nt = nt.replace(&format!("]({})", d), &format!("](\u{1}{}\u{1})", i));
+        }
+        for (i, d) in dests.iter().enumerate() {
+            nt = nt.replace(&format!("](\u{1}{}\u{1})", i), &format!("]({})", crate::libspace::rel_url(&dir, &rho(d))));
+        }
+        moved.insert(nk, nt);
+    }
+    let feats = vec!["notes-in-directories".to_string(), format!("layout={}", layout)];
+    let head = format!("squash({}, depth {}) of {} against the same library laid out as {:?}", root, depth, trunc(&show_texts(&notes), 300), moved);
+    let a = real_squash(&flat, &root, depth as u8);
+    let b = real_squash(&moved, &rho(&root), depth as u8);
+    let (a, b) = match (a, b) {
+        (Some(Ok(a)), Some(Ok(b))) => (a, b),
+        (Some(Ok(_)), Some(Err(pi))) => {
+            return CaseResult { transitions: 2, nontrivial: true, outcome: "panic".into(), failures: vec![panic_failure(pi, &feats, &head)], ..Default::default() };
+        }
+        (Some(Ok(_)), None) => {
+            return CaseResult {
+                transitions: 2,
+                nontrivial: true,
+                outcome: "hang".into(),
+                failures: vec![Failure { clause: "hang".into(), site: String::new(), features: feats, detail: format!("{}: no result within {} s", head, HORIZON_INPROC_S) }],
+                ..Default::default()
+            };
+        }
+        // the flat case itself fails: reported by the flat family
+        _ => return CaseResult { transitions: 1, outcome: "flat-fails-skip".into(), ..Default::default() },
+    };
+    let root_dir = oracle::dir_of(&rho(&root));
+    let fa = |ts: Vec<Tok>| -> Vec<Tok> { rename_dests(ts, &|d: &str| Some(rho(&oracle::strip_md(d)))) };
+    let fb = |ts: Vec<Tok>| -> Vec<Tok> { rename_dests(ts, &|d: &str| oracle::resolve(&root_dir, d)) };
+    let ta = oracle::map_toks(oracle::extract(&a), &fa);
+    let tb = oracle::map_toks(oracle::extract(&b), &fb);
+    let mut failures = vec![];
+    if ta != tb {
+        failures.push(Failure {
+            clause: "layout".into(),
+            site: String::new(),
+            features: feats,
+            detail: format!("{}: {}; flat result {:?}, moved result {:?}", head, oracle::first_diff(&ta, &tb), trunc(&a, 300), trunc(&b, 300)),
+        });
+    }
+    let outcome = if failures.is_empty() { format!("dirs:same:{}", bucket(a.len() / 8)) } else { "dirs:differs".into() };
+    CaseResult { transitions: 2, nontrivial: a.contains("]("), outcome, failures, ..Default::default() }
+}
+
+fn rename_dests(ts: Vec<Tok>, f: &dyn Fn(&str) -> Option<String>) -> Vec<Tok> {
+    ts.into_iter()
+        .map(|t| match t {
+            Tok::Link(kind, dest, inner) => {
+                let inner = rename_dests(inner, f);
+                if oracle::is_external(&dest) {
+                    Tok::Link(kind, dest, inner)
+                } else {
+                    Tok::Link(kind, f(&dest).unwrap_or_else(|| format!("?{}", dest)), inner)
+                }
+            }
+            Tok::Image(d, inner) => Tok::Image(d, rename_dests(inner, f)),
+            x => x,
+        })
+        .collect()
+}
+
 fn run_inproc(case: &str) -> CaseResult {
     match prepare(case) {
         Some(p) => run_prepared(p),
@@ -1202,12 +1318,12 @@ impl Engine for C17 {
         "C17"
     }
     fn rule(&self) -> String {
-        "every library of the bounded space x every depth is squashed through the code path of `iwe squash` (Graph::squash + build_key_from_iter(TreeIter) + export_key) and rendered the way the generate command does (tree.iter().to_markdown); both texts are parsed with the harness's own content extractor (R1) and compared with an independent recursive expansion (R5) of the R1 trees of the source texts: every block reference (a paragraph that is one internal link; at document level, inside a block quote, or as a non-first block of a list item) to an existing note is replaced, where it stands, by that note's content squashed with depth-1; dangling references and references at depth 0 stay links. Clauses: content (same multiset of leaf blocks), container (the same leaf blocks in the same quote / list-item containers: the expansion of a quoted reference stays inside the quote), order (at every level the own non-reference blocks in source order plus exactly one contiguous expansion or kept link per reference occurrence, at any position among its siblings); heading levels and link texts are presentation; a panic, an abort or no result within the horizon violates termination. Libraries: note 1 is squashed; a note = optional title + block sequence over {paragraph, reference to each note incl. itself, reference to a missing note, sub-heading, quote holding only a reference, quote holding a paragraph and a reference, bullet item whose second block is a reference}. non-trivial = at least one reference is expanded".into()
+        "every library of the bounded space x every depth is squashed through the code path of `iwe squash` (Graph::squash + build_key_from_iter(TreeIter) + export_key) and rendered the way the generate command does (tree.iter().to_markdown); both texts are parsed with the harness's own content extractor (R1) and compared with an independent recursive expansion (R5) of the R1 trees of the source texts: every block reference (a paragraph that is one internal link; at document level, inside a block quote, or as a non-first block of a list item) to an existing note is replaced, where it stands, by that note's content squashed with depth-1; dangling references and references at depth 0 stay links. Clauses: content (same multiset of leaf blocks), container (the same leaf blocks in the same quote / list-item containers: the expansion of a quoted reference stays inside the quote), order (at every level the own non-reference blocks in source order plus exactly one contiguous expansion or kept link per reference occurrence, at any position among its siblings); heading levels and link texts are presentation; a panic, an abort or no result within the horizon violates termination. Libraries: note 1 is squashed; a note = optional title + block sequence over {paragraph, reference to each note incl. itself, reference to a missing note, sub-heading, quote holding only a reference, quote holding a paragraph and a reference, bullet item whose second block is a reference}. Directory family (`dirs:<layout>|…`): every multi-note library is also laid out in directories (3 layouts; every reference url re-written relative to the directory of the note that holds it) and must squash to the same tree as the flat library, destination for destination (the flat destination renamed by the layout == the note the moved destination names from the root note's directory). non-trivial = at least one reference is expanded".into()
     }
     fn bound(&self, tier: Tier) -> String {
         match tier {
-            Tier::Quick => format!("1 note: <= 3 blocks (incl. the container references Q>1, Qq>1, L>1, Q>9); 2 notes: note 1 <= 3 blocks, note 2 <= 2 blocks; 2 notes with exactly one container reference (Q>t, Qq>t, L>t, t in 1..2) in note 1 (<= 3 blocks) / in note 2 (<= 2 blocks, note 1 <= 2 blocks) / in both (<= 2 blocks each), other blocks over {{p, >1, >2, >9}}; 3 notes (all reachable from note 1): <= 2 blocks, no sub-headings; depth 0..=4; plus one note with four self-references at depths 5 and 6 ({} cases, expansions of up to 16384 blocks, own subprocess); plus {} self-loop/chain/3-cycle libraries (chains of 256 notes) at depths {:?} each in its own subprocess with a {} s horizon", wide_cases().len(), deep_libs().len(), DEEP_DEPTHS, HORIZON_DEEP_S),
-            Tier::Thorough => format!("1 note: <= 4 blocks, and <= 3 blocks incl. the container references Q>1, Qq>1, L>1, Q>9; 2 notes: <= 3 blocks each; 2 notes with exactly one container reference (Q>t, Qq>t, L>t) in note 1 (<= 3 blocks) / in note 2 (<= 2 blocks, note 1 <= 3 blocks) / in both (<= 2 blocks each); 3 notes (all reachable): note 1 <= 2 blocks with sub-headings, others <= 2 blocks; 4 notes: every subset of the 16 edges (2^16 graphs, references in ascending order) x 2 layouts (titled `#T;p;refs`, untitled `refs;p`); depth 0..=6 (expansions of 4000 blocks or more in their own subprocess); plus {} self-loop/chain/3-cycle libraries (chains of 256 notes) at depths {:?} each in its own subprocess with a {} s horizon", deep_libs().len(), DEEP_DEPTHS, HORIZON_DEEP_S),
+            Tier::Quick => format!("1 note: <= 3 blocks (incl. the container references Q>1, Qq>1, L>1, Q>9); 2 notes: note 1 <= 3 blocks, note 2 <= 2 blocks; 2 notes with exactly one container reference (Q>t, Qq>t, L>t, t in 1..2) in note 1 (<= 3 blocks) / in note 2 (<= 2 blocks, note 1 <= 2 blocks) / in both (<= 2 blocks each), other blocks over {{p, >1, >2, >9}}; 3 notes (all reachable from note 1): <= 2 blocks, no sub-headings; depth 0..=4; plus one note with four self-references at depths 5 and 6 ({} cases, expansions of up to 16384 blocks, own subprocess); plus {} self-loop/chain/3-cycle libraries (chains of 256 notes) at depths {:?} each in its own subprocess with a {} s horizon; every multi-note library also in 2 directory layouts at depth 2", wide_cases().len(), deep_libs().len(), DEEP_DEPTHS, HORIZON_DEEP_S),
+            Tier::Thorough => format!("1 note: <= 4 blocks, and <= 3 blocks incl. the container references Q>1, Qq>1, L>1, Q>9; 2 notes: <= 3 blocks each; 2 notes with exactly one container reference (Q>t, Qq>t, L>t) in note 1 (<= 3 blocks) / in note 2 (<= 2 blocks, note 1 <= 3 blocks) / in both (<= 2 blocks each); 3 notes (all reachable): note 1 <= 2 blocks with sub-headings, others <= 2 blocks; 4 notes: every subset of the 16 edges (2^16 graphs, references in ascending order) x 2 layouts (titled `#T;p;refs`, untitled `refs;p`); depth 0..=6 (expansions of 4000 blocks or more in their own subprocess); plus {} self-loop/chain/3-cycle libraries (chains of 256 notes) at depths {:?} each in its own subprocess with a {} s horizon; every library of <= 3 notes also in 3 directory layouts at depths 1..=3", deep_libs().len(), DEEP_DEPTHS, HORIZON_DEEP_S),
         }
     }
     fn assumptions(&self) -> Vec<String> {
@@ -1293,6 +1409,18 @@ impl Engine for C17 {
                 emit(&format!("d={}|{}", d, l));
             }
         }
+        // the same libraries with their notes moved into directories (differential, `run_dirs`)
+        {
+            let layouts: &[&str] = if thorough { &["A", "B", "C"] } else { &["A", "B"] };
+            let depths: &[u32] = if thorough { &[1, 2, 3] } else { &[2] };
+            for l in libs.iter().filter(|l| l.contains('|')) {
+                for lay in layouts {
+                    for d in depths {
+                        emit(&format!("dirs:{}|d={}|{}", lay, d, l));
+                    }
+                }
+            }
+        }
         for c in wide_cases() {
             emit(&c);
         }
@@ -1334,12 +1462,18 @@ impl Engine for C17 {
         Some(HORIZON_DEEP_S + 30)
     }
     fn features(&self, case: &str) -> Vec<String> {
+        if let Some(rest) = case.strip_prefix("dirs:") {
+            return vec!["notes-in-directories".to_string(), format!("layout={}", rest.split('|').next().unwrap_or(""))];
+        }
         let c = case.strip_prefix('!').unwrap_or(case);
         prepare(c).map(|p| p.feats).unwrap_or_default()
     }
     fn run(&self, case: &str, ctx: &Ctx) -> CaseResult {
         if let Some(inner) = case.strip_prefix('!') {
             return run_inproc(inner);
+        }
+        if let Some(rest) = case.strip_prefix("dirs:") {
+            return run_dirs(rest);
         }
         let p = match prepare(case) {
             Some(p) => p,
